@@ -167,6 +167,22 @@ def correspond(ctx):
         for tmpl in ('from %s to %s', 'between %s and %s'):
             jobs.append(('en-us', tmpl % (t(s1), t(s2)), REF))
             meta.append(('time', t(s1) + ':00', t(s2) + ':00', s2 - s1))
+    # date-time ranges: start date+time to end date+time, spanning 0..3 days with every kind of remainder (whole days plus
+    # only minutes, plus hours, exact multiples of 24 h)
+    for i in range(npairs):
+        a = datetime.datetime(2019, 1, 1) + datetime.timedelta(days=r.randint(0, 700), hours=r.choice([0, 9, 15, 23]),
+                                                               minutes=r.choice([0, 0, 30]))
+        delta = datetime.timedelta(days=i % 4, hours=r.choice([0, 0, 1, 5]), minutes=r.choice([0, 30, 45]))
+        if delta.total_seconds() == 0:
+            delta = datetime.timedelta(days=1)
+        b = a + delta
+        if b.date() == a.date() and b.hour < 13 and a.hour < 13 and False:
+            continue
+        def fdt(x):
+            h12 = x.hour % 12 or 12
+            return '%s %d %d %d:%02d%s' % (MONTHS[x.month - 1].lower(), x.day, x.year, h12, x.minute, 'am' if x.hour < 12 else 'pm')
+        jobs.append(('en-us', 'from %s to %s' % (fdt(a), fdt(b)), REF))
+        meta.append(('datetime', a.strftime('%Y-%m-%d %H:%M:%S'), b.strftime('%Y-%m-%d %H:%M:%S'), int(delta.total_seconds())))
     res = dtpipe.run(jobs)
     ents, idx = [], []
     for k, (j, m, got) in enumerate(zip(jobs, meta, res)):
